@@ -49,4 +49,37 @@ def pool (j : Json) : Except String Json := do
         ("terminal", Json.bool (isFin && allStopped)),
         ("enabled", strList ((enabled c s).map lblStr))]
 
+/-- `{"m":"mpool","T","P","passes":[{"n":k|null,"fails":[…]},…],"trace":["cur:cPut","old:0:wGet:1","new",…]}`:
+the pool object over several passes (`Multi`). -/
+def mpool (j : Json) : Except String Json := do
+  let T ← getNat j "T"
+  let P ← getNat j "P"
+  let ps ← getArr j "passes"
+  let cfgs ← ps.toList.mapM (fun pj => do
+    let fails ← getNatList pj "fails"
+    pure ({ T := T, P := P, n := optNat pj "n", fails := fun i => fails.contains i, forward := true } : Cfg))
+  let dflt : Cfg := { T := T, P := P, n := some 0, fails := fun _ => false, forward := true }
+  let cs : Nat → Cfg := fun g => cfgs.getD g dflt
+  let tr ← getStrList j "trace"
+  let lbls ← tr.mapM (fun s =>
+    match s.splitOn ":" with
+    | ["new"] => pure MLbl.newPass
+    | "cur" :: rest => do pure (MLbl.cur (← parseLbl (":".intercalate rest)))
+    | "old" :: g :: rest => match g.toNat? with
+      | some k => do pure (MLbl.old k (← parseLbl (":".intercalate rest)))
+      | none => throw s!"bad label {s}"
+    | _ => throw s!"bad label {s}")
+  let m0 := minit cs
+  match mfirstRefused cs m0 lbls 0 with
+  | some k => return Json.mkObj [("ok", Json.bool false), ("at", toJson k), ("label", Json.str (tr.getD k "?"))]
+  | none =>
+    match maccepts cs m0 lbls with
+    | none => throw "inconsistent maccepts"
+    | some m =>
+      let fin (s : St) := (match s.ph with | .fin _ => true | _ => false) && s.ws.all (· == .stopped)
+      return Json.mkObj [("ok", Json.bool true), ("passes", toJson (m.past.length + 1)),
+        ("outs", Json.arr ((m.past ++ [m.cur]).map (fun s => natList s.out)).toArray),
+        ("phs", strList ((m.past ++ [m.cur]).map (fun s => phStr s.ph))),
+        ("terminal", Json.arr ((m.past ++ [m.cur]).map (fun s => Json.bool (fin s))).toArray)]
+
 end Sedpack.Drv
